@@ -157,3 +157,13 @@ Proof.
   induction ops as [|o ops IH]; intros s H1 H2; cbn; [exact H1|].
   destruct (scaled_once_inv pl now s o H1 H2) as [A B]. apply IH; assumption.
 Qed.
+
+(* with two handles that share the results but not the flags, finishing through one and then through the other finalises (scales) twice: the guard of
+   C09_refinalize_refused looks at a flag the second handle never had set (listed finding multisim-inplace-aliases-finalise-twice); through ONE handle
+   the second attempt is refused and changes nothing *)
+Lemma aliased_handles_finalise_twice : forall s, s_ready s = false ->
+  s_scaled (fst (through false sim_finalize (through true sim_finalize (s, s)))) = S (S (s_scaled s)).
+Proof. intros s R. unfold through, sim_finalize. rewrite R. cbn. rewrite R. cbn. reflexivity. Qed.
+Lemma one_handle_finalises_once : forall s, s_ready s = false ->
+  through true sim_finalize (through true sim_finalize (s, s)) = through true sim_finalize (s, s).
+Proof. intros s R. unfold through, sim_finalize. rewrite R. cbn. reflexivity. Qed.
